@@ -126,19 +126,24 @@ class Ctx(object):
 
     # ---- hypothesis search with exclusion of already-found signatures
     def search(self, strategy, run_case, max_examples, nontrivial=lambda case: True, labels=lambda case: (),
-               name="search", max_rounds=4, stateful_steps=None, shrink=True):
+               name="search", max_rounds=4, stateful_steps=None, shrink=True, shrink_budget_s=None):
         import hypothesis
         import warnings
         from hypothesis import given, settings, HealthCheck, Phase
         warnings.filterwarnings("ignore", category=hypothesis.errors.HypothesisWarning)
         found = set()
         ctx = self
+        if shrink_budget_s is None:
+            shrink_budget_s = 45 if self.tier == "quick" else 240
         for _round in range(max_rounds):
             last = {}
 
             def body(case):
                 if ctx.over_budget():
                     return
+                if "t_fail" in last and time.time() - last["t_fail"] > shrink_budget_s:
+                    last["cut"] = True      # shrinking has had its time: let hypothesis wind down, the smallest failing
+                    return                  # case seen so far is kept in `last`
                 viols = run_case(case)
                 ctx.count(case, nontrivial(case), labels(case))
                 for v in viols:
@@ -148,6 +153,7 @@ class Ctx(object):
                 if new:
                     last["case"] = case
                     last["viol"] = new[0]
+                    last.setdefault("t_fail", time.time())
                     raise _Fail(new[0].signature)
 
             phases = [Phase.explicit, Phase.generate] + ([Phase.shrink] if shrink else [])
@@ -165,6 +171,13 @@ class Ctx(object):
                 self.violations.append(v)
                 continue
             except hypothesis.errors.HypothesisException as x:
+                if "viol" in last and last.get("cut"):
+                    v = last["viol"]
+                    v.case = last["case"]
+                    found.add(v.signature)
+                    self.violations.append(v)
+                    self.classes["shrink-cut-short"] += 1
+                    continue
                 if "viol" in last and isinstance(x, (hypothesis.errors.Flaky, hypothesis.errors.FlakyFailure)):
                     # the violation was observed against the real code, but did not repeat when hypothesis replayed the
                     # case (state left behind by the first run, timing): still a violation, marked as not reproducible
